@@ -48,7 +48,15 @@ func c13Lexical(t *rapid.T) *DCase {
 		case 2:
 			if n(0, 2, "nummethod") == 0 {
 				// a method called on a numeric literal: the literal ends before the member operator
-				return ast.Method(num(), rapid.SampledFrom([]string{"floor", "ceil", "round"}).Draw(t, "nmeth"))
+				m := ast.Method(num(), rapid.SampledFrom([]string{"floor", "ceil", "round"}).Draw(t, "nmeth"))
+				if n(0, 1, "negated") == 0 {
+					// a sign in front of the literal is an operator of its own: -2.5.floor() is -(2.5.floor())
+					return ast.Un("-", m)
+				}
+				return m
+			}
+			if n(0, 3, "signed") == 0 {
+				return ast.Un(rapid.SampledFrom([]string{"-", "+", "!"}).Draw(t, "sign"), num())
 			}
 		}
 		return num()
